@@ -18,7 +18,7 @@ open(trial, "w").write(new)
 if os.path.exists(trial + ".ok"):
     os.remove(trial + ".ok")
 src = new.split("\n")
-r = subprocess.run(["lake", "env", "lean", trial], cwd=proj, capture_output=True, text=True)
+r = subprocess.run(["lake", "env", "lean", "-DmaxErrors=1000000", trial], cwd=proj, capture_output=True, text=True)
 failed = set()
 for m in re.finditer(r"^%s:(\d+):\d+: error" % re.escape(trial), r.stdout + r.stderr, re.M):
     failed.add(int(m.group(1)))
